@@ -88,6 +88,16 @@ pub struct AstLowering {
 }
 
 impl AstLowering {
+    /// Methods cannot be marked `pub` in Incan: the methods of a `pub` model, class or newtype are part of what the type
+    /// exports. Each Incan module becomes a Rust module, so without `pub` they could not be called by an importer.
+    fn publish_methods_of_public_type(owner: &super::decl::IrStruct, impl_ir: &mut super::decl::IrImpl) {
+        if matches!(owner.visibility, super::decl::Visibility::Public) {
+            for method in &mut impl_ir.methods {
+                method.visibility = super::decl::Visibility::Public;
+            }
+        }
+    }
+
     /// Select a validated constructor method for a newtype for v0.1 checked construction.
     ///
     /// Heuristic (minimal hardening for #44, RFC runway):
@@ -286,7 +296,8 @@ impl AstLowering {
 
                             // Generate impl block (may be empty if no methods, serde methods added during emission)
                             match self.lower_model_methods(&struct_ir.name, &m.methods) {
-                                Ok(impl_ir) => {
+                                Ok(mut impl_ir) => {
+                                    Self::publish_methods_of_public_type(&struct_ir, &mut impl_ir);
                                     ir_program.declarations.push(IrDecl::new(IrDeclKind::Impl(impl_ir)));
                                 }
                                 Err(e) => errors.push(e),
@@ -328,7 +339,8 @@ impl AstLowering {
                             // Generate impl block for all methods (inherited + own)
                             if !all_methods.is_empty() {
                                 match self.lower_class_methods(&struct_ir.name, &all_methods) {
-                                    Ok(impl_ir) => {
+                                    Ok(mut impl_ir) => {
+                                        Self::publish_methods_of_public_type(&struct_ir, &mut impl_ir);
                                         ir_program.declarations.push(IrDecl::new(IrDeclKind::Impl(impl_ir)));
                                     }
                                     Err(e) => errors.push(e),
@@ -361,7 +373,8 @@ impl AstLowering {
                             // Generate impl block for newtype methods (if any).
                             if !n.methods.is_empty() {
                                 match self.lower_model_methods(&struct_ir.name, &n.methods) {
-                                    Ok(impl_ir) => {
+                                    Ok(mut impl_ir) => {
+                                        Self::publish_methods_of_public_type(&struct_ir, &mut impl_ir);
                                         ir_program.declarations.push(IrDecl::new(IrDeclKind::Impl(impl_ir)));
                                     }
                                     Err(e) => errors.push(e),
